@@ -444,3 +444,169 @@ Example negative_aaaa_ttl_example :
   /\ go_negativeAAAATTL (mk_T_Msg h false [] [] [soa 3600 0]%N []) = (0%N, true)
   /\ go_negativeAAAATTL (mk_T_Msg h false [] [soa 5 5]%N [I_RR_other 2%N (hdr 9 2)%N] []) = (0%N, false).
 Proof. intros. vm_compute. repeat split; reflexivity. Qed.
+
+(* ------------------------------------------------------------------ *)
+(** * cache.denialProofExpiry (middleware/cache/denial_proof_cache.go), translated (wave 9:
+      the result-less local closure `bound` is inlined): the model's [proof_expiry] IS the
+      code.  [now] is a parameter of the Go function; the RRSIG expirations are compared with
+      the same instant (the model's [wall] = [now]). *)
+
+Definition prr_of_irr (x : I_RR) : prr :=
+  let t := Z.of_N (T_RR_Header_Ttl (I_RR_Header x)) in
+  match x with
+  | I_RR_of_SOA v => PSoa t (Z.of_N (T_SOA_Minttl v))
+  | I_RR_of_RRSIG v => PSig t (Z.of_N (T_RRSIG_OrigTtl v)) (Z.of_N (T_RRSIG_Expiration v))
+  | _ => PPlain t
+  end.
+Definition oz_go (z : Z) : option Z := if z =? 0 then None else Some z.   (* the zero time.Time: no lease *)
+Definition is_nil_rr (x : I_RR) : bool := match x with I_RR_nil => true | _ => false end.
+
+Definition step_proof (now cur : Z) (x : I_RR) : Z := bound_min (prr_cands now (prr_of_irr x)) cur.
+
+Lemma bound_min_flat_map {A} (f : A -> list Z) l : forall t,
+  bound_min (flat_map f l) t = fold_left (fun cur x => bound_min (f x) cur) l t.
+Proof.
+  induction l as [|x l IH]; intros t; [reflexivity|].
+  cbn [flat_map fold_left]. unfold bound_min at 1. rewrite fold_left_app. fold (bound_min (f x) t).
+  fold (bound_min (flat_map f l) (bound_min (f x) t)). apply IH.
+Qed.
+
+Lemma proof_loop2_run now mx cut recs : forall suf pre lf cur,
+  (length suf < lf)%nat ->
+  existsb is_nil_rr suf = false ->
+  go_denialProofExpiry_loop2 (pre ++ suf) lf (go_len pre) now mx cut recs cur
+  = (GoNext, (now, mx, cut, recs, fold_left (step_proof now) suf cur)).
+Proof.
+  induction suf as [|x suf IH]; intros pre lf cur Hlf Hn; (destruct lf as [|lf]; [cbn in Hlf; lia|]).
+  - cbn [go_denialProofExpiry_loop2]. rewrite ltb_len_end. reflexivity.
+  - cbn [go_denialProofExpiry_loop2]. rewrite ltb_len_mid, idx_mid.
+    cbn [existsb] in Hn. apply orb_false_elim in Hn. destruct Hn as [Hx Hs].
+    replace (pre ++ x :: suf) with ((pre ++ [x]) ++ suf) by (rewrite <- app_assoc; reflexivity).
+    rewrite <- (len_snoc pre x). cbn [fold_left].
+    assert (Hl : (length suf < lf)%nat) by (cbn in Hlf; lia).
+    destruct x; try discriminate Hx; cbn [orb]; unfold step_proof, prr_of_irr, prr_cands, bound_min, second;
+      cbn [fold_left I_RR_Header]; rewrite ?lower_if, ?Z.add_0_r; apply IH; auto.
+Qed.
+Lemma proof_loop1_run now mx cut recs : forall suf pre lf cur cand,
+  (length suf < lf)%nat ->
+  existsb is_nil_rr suf = false ->
+  exists cand', go_denialProofExpiry_loop1 (pre ++ suf) lf (go_len pre) now mx cut recs cur cand
+  = (GoNext, (now, mx, cut, recs, fold_left (step_proof now) suf cur, cand')).
+Proof.
+  induction suf as [|x suf IH]; intros pre lf cur cand Hlf Hn; (destruct lf as [|lf]; [cbn in Hlf; lia|]).
+  - cbn [go_denialProofExpiry_loop1]. rewrite ltb_len_end. eexists. reflexivity.
+  - cbn [go_denialProofExpiry_loop1]. rewrite ltb_len_mid, idx_mid.
+    cbn [existsb] in Hn. apply orb_false_elim in Hn. destruct Hn as [Hx Hs].
+    replace (pre ++ x :: suf) with ((pre ++ [x]) ++ suf) by (rewrite <- app_assoc; reflexivity).
+    rewrite <- (len_snoc pre x). cbn [fold_left].
+    assert (Hl : (length suf < lf)%nat) by (cbn in Hlf; lia).
+    destruct x; try discriminate Hx; cbn [orb]; unfold step_proof, prr_of_irr, prr_cands, bound_min, second;
+      cbn [fold_left I_RR_Header]; rewrite ?lower_if, ?Z.add_0_r; apply IH; auto.
+Qed.
+
+(* for every clock reading, ceiling, lease and record list without a nil interface value (the
+   code refuses such a list outright: second lemma): the translated function is the model *)
+Lemma gen_denialProofExpiry : forall now mx cut records,
+  existsb is_nil_rr records = false ->
+  go_denialProofExpiry now mx cut records
+  = match proof_expiry mx (oz_go cut) (map prr_of_irr records) now now with
+    | Some e => (e, true)
+    | None => (0, false)
+    end.
+Proof.
+  intros now mx cut records Hn. unfold go_denialProofExpiry, proof_expiry, oz_go, max_denial_proof_ttl. cbv zeta.
+  set (m := if (mx <=? 0) || (10800000000000 <? mx) then 10800000000000 else mx).
+  rewrite bound_min_flat_map.
+  assert (Hf : forall t, fold_left (fun cur x => bound_min (prr_cands now x) cur) (map prr_of_irr records) t
+                        = fold_left (step_proof now) records t).
+  { clear. induction records as [|x l IH]; intros t; [reflexivity|]. cbn [map fold_left]. apply IH. }
+  rewrite Hf.
+  destruct (Z.eqb_spec cut 0) as [Ec|Ec]; cbn [negb].
+  - pose proof (proof_loop2_run now m cut records records [] (S (length records)) m ltac:(lia) Hn) as H.
+    cbn [app] in H. change (go_len (@nil I_RR)) with 0 in H. rewrite H.
+    destruct (fold_left (step_proof now) records m <=? 0); reflexivity.
+  - rewrite lower_if.
+    destruct (proof_loop1_run now m cut records records [] (S (length records)) (lower (cut - now) m) (cut - now) ltac:(lia) Hn) as (c' & H).
+    cbn [app] in H. change (go_len (@nil I_RR)) with 0 in H. rewrite H.
+    change (bound_min [cut - now] m) with (lower (cut - now) m).
+    destruct (fold_left (step_proof now) records (lower (cut - now) m) <=? 0); reflexivity.
+Qed.
+
+(* `rr == nil` anywhere in the list: nothing is recorded *)
+Lemma gen_denialProofExpiry_nil : forall now mx cut pre post,
+  existsb is_nil_rr pre = false ->
+  go_denialProofExpiry now mx cut (pre ++ I_RR_nil :: post) = (0, false).
+Proof.
+  intros now mx cut pre post Hn. unfold go_denialProofExpiry. cbv zeta.
+  set (m := if (mx <=? 0) || (10800000000000 <? mx) then 10800000000000 else mx).
+  assert (L2 : forall suf p lf cur, (length suf < lf)%nat -> existsb is_nil_rr suf = false ->
+     go_denialProofExpiry_loop2 (p ++ suf ++ I_RR_nil :: post) lf (go_len p) now m cut (pre ++ I_RR_nil :: post) cur
+     = (GoRet (0, false), (now, m, cut, pre ++ I_RR_nil :: post, fold_left (step_proof now) suf cur))).
+  { induction suf as [|x suf IH]; intros p lf cur Hlf Hs; (destruct lf as [|lf]; [cbn in Hlf; lia|]).
+    - cbn [app go_denialProofExpiry_loop2]. rewrite ltb_len_mid, idx_mid. reflexivity.
+    - cbn [go_denialProofExpiry_loop2]. rewrite <- app_comm_cons. rewrite ltb_len_mid, idx_mid.
+      cbn [existsb] in Hs. apply orb_false_elim in Hs. destruct Hs as [Hx Hs].
+      replace (p ++ x :: suf ++ I_RR_nil :: post) with ((p ++ [x]) ++ suf ++ I_RR_nil :: post) by (rewrite <- app_assoc; reflexivity).
+      rewrite <- (len_snoc p x). cbn [fold_left].
+      assert (Hl : (length suf < lf)%nat) by (cbn in Hlf; lia).
+      destruct x; try discriminate Hx; cbn [orb]; unfold step_proof, prr_of_irr, prr_cands, bound_min, second;
+        cbn [fold_left I_RR_Header]; rewrite ?lower_if, ?Z.add_0_r; apply IH; auto. }
+  assert (L1 : forall suf p lf cur cand, (length suf < lf)%nat -> existsb is_nil_rr suf = false ->
+     exists st, go_denialProofExpiry_loop1 (p ++ suf ++ I_RR_nil :: post) lf (go_len p) now m cut (pre ++ I_RR_nil :: post) cur cand
+     = (GoRet (0, false), st)).
+  { induction suf as [|x suf IH]; intros p lf cur cand Hlf Hs; (destruct lf as [|lf]; [cbn in Hlf; lia|]).
+    - cbn [app go_denialProofExpiry_loop1]. rewrite ltb_len_mid, idx_mid. eexists. reflexivity.
+    - cbn [go_denialProofExpiry_loop1]. rewrite <- app_comm_cons. rewrite ltb_len_mid, idx_mid.
+      cbn [existsb] in Hs. apply orb_false_elim in Hs. destruct Hs as [Hx Hs].
+      replace (p ++ x :: suf ++ I_RR_nil :: post) with ((p ++ [x]) ++ suf ++ I_RR_nil :: post) by (rewrite <- app_assoc; reflexivity).
+      rewrite <- (len_snoc p x).
+      assert (Hl : (length suf < lf)%nat) by (cbn in Hlf; lia).
+      destruct x; try discriminate Hx; cbn [orb]; apply IH; auto. }
+  assert (Hlen : (length pre < S (length (pre ++ I_RR_nil :: post)))%nat) by (rewrite app_length; cbn; lia).
+  destruct (Z.eqb_spec cut 0); cbn [negb].
+  - pose proof (L2 pre [] _ m Hlen Hn) as H. cbn [app] in H. change (go_len (@nil I_RR)) with 0 in H. rewrite H. reflexivity.
+  - destruct (L1 pre [] _ (if cut - now <? m then cut - now else m) (cut - now) Hlen Hn) as (st & H).
+    cbn [app] in H. change (go_len (@nil I_RR)) with 0 in H. rewrite H. reflexivity.
+Qed.
+
+(* what the model's theorem says, said of the translated source: an expiry the code hands out
+   lies strictly after the reading, within 3 h and the configured ceiling, before the lease, and
+   -- no floor -- inside every TTL, SOA MINIMUM, RRSIG original TTL and RRSIG validity *)
+Lemma denial_proof_expiry_is_source_l : forall now mx cut records,
+  existsb is_nil_rr records = false ->
+  go_denialProofExpiry now mx cut records
+  = match proof_expiry mx (oz_go cut) (map prr_of_irr records) now now with
+    | Some e => (e, true)
+    | None => (0, false)
+    end
+  /\ (forall ex, go_denialProofExpiry now mx cut records = (ex, true) ->
+        now < ex /\ ex - now <= max_denial_proof_ttl /\ (0 < mx -> ex - now <= mx)
+        /\ (cut <> 0 -> ex <= cut)
+        /\ (forall x c, In x records -> In c (prr_cands now (prr_of_irr x)) -> ex - now <= c)).
+Proof.
+  intros now mx cut records Hn. pose proof (gen_denialProofExpiry now mx cut records Hn) as G.
+  split; [exact G|]. intros ex He. rewrite G in He.
+  destruct (proof_expiry mx (oz_go cut) (map prr_of_irr records) now now) as [e|] eqn:E; [|discriminate].
+  inversion He; subst e. destruct (proof_expiry_no_floor _ _ _ _ _ _ E) as (H1 & H2 & H3 & H4 & H5).
+  repeat split; try assumption.
+  - intros Hc. apply H5. unfold oz_go. destruct (Z.eqb_spec cut 0); [contradiction|reflexivity].
+  - intros x c Hx Hcands. apply (H4 (prr_of_irr x) c); [apply in_map; exact Hx|exact Hcands].
+Qed.
+
+(* non-vacuity, computed on the translated function: SOA (TTL 3600, MINIMUM 300), its RRSIG
+   (original TTL 3600, valid for another 120 s), an NSEC (TTL 7200): the signature ends first;
+   a lease of 40 s ends earlier still; a lease already over refuses; a nil record refuses *)
+Example denial_proof_expiry_example :
+  let hdr t ty := mk_T_RR_Header [] ty 1%N t 0%N in
+  let soa := I_RR_of_SOA (mk_T_SOA (hdr 3600 6)%N [] [] 1 7200 900 86400 300)%N in
+  let sig e := I_RR_of_RRSIG (mk_T_RRSIG (hdr 3600 46)%N 6 13 2 3600 e 0 1 [] [])%N in
+  let nsec := I_RR_other 47%N (hdr 7200 47)%N in
+  let now := 1000 * second in
+  go_denialProofExpiry now 0 0 [soa; sig 1120%N; nsec] = (1120 * second, true)
+  /\ go_denialProofExpiry now 0 0 [soa; sig 5000%N; nsec] = (1300 * second, true)
+  /\ go_denialProofExpiry now (60 * second) 0 [soa; sig 5000%N; nsec] = (1060 * second, true)
+  /\ go_denialProofExpiry now 0 (1040 * second) [soa; sig 1120%N; nsec] = (1040 * second, true)
+  /\ go_denialProofExpiry now 0 (999 * second) [soa; sig 1120%N; nsec] = (0, false)
+  /\ go_denialProofExpiry now 0 0 [soa; sig 1000%N; nsec] = (0, false)
+  /\ go_denialProofExpiry now 0 0 [soa; I_RR_nil; nsec] = (0, false).
+Proof. vm_compute. repeat split; reflexivity. Qed.
